@@ -10,10 +10,10 @@ use crate::util::{parse_file, CfgEnv};
 use std::collections::HashMap;
 use syn::{BinOp, Expr, ImplItem, Item, Lit, Pat, Stmt, UnOp};
 
-type R<T> = Result<T, String>;
+pub(crate) type R<T> = Result<T, String>;
 
 #[derive(Clone, PartialEq, Debug)]
-enum T {
+pub(crate) enum T {
     I16,
     U16,
     Usize,
@@ -28,9 +28,27 @@ enum T {
     /// `Option<integer>` (result of `try_into_track_vec_index`)
     Option(Box<T>),
     Counts,
+    // --- added for extract/src/placement.rs (grid placement; not used by GridCoords) ---
+    Axis,
+    Flow,
+    Cell,
+    Matrix,
+    Grid,
+    /// `InBothAbsAxis<Line<OriginZeroGridPlacement>>`
+    InBoth,
+    /// a child's style seen through `GridItemStyle` (`grid_row`, `grid_column`)
+    Child,
+    /// `(usize, NodeId, S)` / `(usize, NodeId, InBothAbsAxis<…>, S)`: the element types of `place_grid_items`' iterator chain
+    IdxChild,
+    OzChild,
+    /// `&mut Vec<GridItem>` of placement.rs
+    Items,
+    Tuple(Vec<T>),
+    List(Box<T>),
+    Unit,
 }
 impl T {
-    fn lean(&self) -> String {
+    pub(crate) fn lean(&self) -> String {
         match self {
             T::I16 | T::U16 | T::Usize | T::IntLit | T::Oz | T::Gl => "Int".into(),
             T::Bool | T::Prop => "Bool".into(),
@@ -38,12 +56,13 @@ impl T {
             T::Line(t) => format!("(Line {})", t.lean()),
             T::Option(t) => format!("(Option {})", t.lean()),
             T::Counts => "TrackCounts".into(),
+            t => crate::placement::lean_ty(t),
         }
     }
-    fn is_int(&self) -> bool {
+    pub(crate) fn is_int(&self) -> bool {
         matches!(self, T::I16 | T::U16 | T::Usize | T::IntLit)
     }
-    fn checker(&self) -> Option<&'static str> {
+    pub(crate) fn checker(&self) -> Option<&'static str> {
         match self {
             T::I16 => Some("i16"),
             T::U16 => Some("u16"),
@@ -51,7 +70,7 @@ impl T {
             _ => None,
         }
     }
-    fn key(&self) -> String {
+    pub(crate) fn key(&self) -> String {
         match self {
             T::Oz => "OriginZeroLine".into(),
             T::Gl => "GridLine".into(),
@@ -142,34 +161,36 @@ impl S {
 
 #[derive(Clone)]
 #[allow(dead_code)]
-struct Sig {
-    lean: String,
-    self_ty: Option<T>,
-    params: Vec<T>,
-    ret: T,
-    monadic: bool,
+pub(crate) struct Sig {
+    pub(crate) lean: String,
+    pub(crate) self_ty: Option<T>,
+    pub(crate) params: Vec<T>,
+    pub(crate) ret: T,
+    pub(crate) monadic: bool,
 }
 
 #[allow(dead_code)]
-enum Pre {
+pub(crate) enum Pre {
     Let(String, String),
     Bind(String, String),
 }
 
-struct Cx<'a> {
-    fns: &'a HashMap<(String, String), Sig>,
-    self_ty: Option<T>,
+pub(crate) struct Cx<'a> {
+    pub(crate) fns: &'a HashMap<(String, String), Sig>,
+    pub(crate) self_ty: Option<T>,
     /// coordinate type of a generic `GenericGridPlacement<T>` impl
-    generic_coord: Option<T>,
-    locals: HashMap<String, (String, T)>,
-    aliases: HashMap<String, String>,
-    n: usize,
+    pub(crate) generic_coord: Option<T>,
+    pub(crate) locals: HashMap<String, (String, T)>,
+    pub(crate) aliases: HashMap<String, String>,
+    pub(crate) n: usize,
+    /// state of the extension in extract/src/placement.rs (unused by GridCoords)
+    pub(crate) ext: crate::placement::Ext,
 }
 
-fn segs(p: &syn::Path) -> Vec<String> {
+pub(crate) fn segs(p: &syn::Path) -> Vec<String> {
     p.segments.iter().map(|s| s.ident.to_string()).collect()
 }
-fn lname(n: &str) -> String {
+pub(crate) fn lname(n: &str) -> String {
     crate::lean::ident(n)
 }
 fn wrap(pre: Vec<Pre>, mut s: S) -> S {
@@ -183,11 +204,11 @@ fn wrap(pre: Vec<Pre>, mut s: S) -> S {
 }
 
 impl<'a> Cx<'a> {
-    fn tmp(&mut self) -> String {
+    pub(crate) fn tmp(&mut self) -> String {
         self.n += 1;
         format!("t{}", self.n)
     }
-    fn ty(&self, t: &syn::Type) -> R<T> {
+    pub(crate) fn ty(&self, t: &syn::Type) -> R<T> {
         let s = norm(t);
         let s = s.trim_start_matches('&');
         Ok(match s {
@@ -205,10 +226,10 @@ impl<'a> Cx<'a> {
             "Line<GridPlacement>" => T::Line(Box::new(T::Placement(Box::new(T::Gl)))),
             "Line<OriginZeroGridPlacement>" => T::Line(Box::new(T::Placement(Box::new(T::Oz)))),
             "Self" | "Self::Output" => self.self_ty.clone().ok_or("Self outside impl")?,
-            _ => return Err(format!("unsupported type `{s}`")),
+            _ => return crate::placement::ty_ext(s),
         })
     }
-    fn placement_variant(&self, path: &[String], expect: Option<&T>) -> Option<(String, T)> {
+    pub(crate) fn placement_variant(&self, path: &[String], expect: Option<&T>) -> Option<(String, T)> {
         if path.len() < 2 {
             return None;
         }
@@ -235,14 +256,14 @@ impl<'a> Cx<'a> {
         Some((format!("Placement.{v}"), T::Placement(Box::new(coord))))
     }
 
-    fn bind_checked(&mut self, t: &T, e: String, pre: &mut Vec<Pre>) -> R<String> {
+    pub(crate) fn bind_checked(&mut self, t: &T, e: String, pre: &mut Vec<Pre>) -> R<String> {
         let c = t.checker().ok_or(format!("arithmetic at type {:?}", t))?;
         let x = self.tmp();
         pre.push(Pre::Bind(x.clone(), format!("{c} ({e})")));
         Ok(x)
     }
 
-    fn call_sig(&mut self, sig: &Sig, args: Vec<String>, pre: &mut Vec<Pre>) -> (String, T) {
+    pub(crate) fn call_sig(&mut self, sig: &Sig, args: Vec<String>, pre: &mut Vec<Pre>) -> (String, T) {
         let app = if args.is_empty() { sig.lean.clone() } else { format!("{} {}", sig.lean, args.join(" ")) };
         if sig.monadic {
             let x = self.tmp();
@@ -253,7 +274,7 @@ impl<'a> Cx<'a> {
         }
     }
 
-    fn ex(&mut self, e: &Expr, expect: Option<&T>, pre: &mut Vec<Pre>) -> R<(String, T)> {
+    pub(crate) fn ex(&mut self, e: &Expr, expect: Option<&T>, pre: &mut Vec<Pre>) -> R<(String, T)> {
         match e {
             Expr::Paren(p) => self.ex(&p.expr, expect, pre),
             Expr::Group(p) => self.ex(&p.expr, expect, pre),
@@ -291,7 +312,7 @@ impl<'a> Cx<'a> {
                         return Ok(("none".into(), t.clone()));
                     }
                 }
-                Err(format!("unresolved path `{}`", s.join("::")))
+                self.path_ext(&s, expect)
             }
             Expr::Field(f) => {
                 let (b, bt) = self.ex(&f.base, None, pre)?;
@@ -305,7 +326,7 @@ impl<'a> Cx<'a> {
                         "positive_implicit" => Ok((format!("{b}.positiveImplicit"), T::U16)),
                         o => Err(format!("TrackCounts has no field {o}")),
                     },
-                    _ => Err(format!("unsupported field access `{}`", quote::quote!(#f))),
+                    _ => self.field_ext(b, bt, &f.member),
                 }
             }
             Expr::Unary(u) if matches!(u.op, UnOp::Neg(_)) => {
@@ -337,7 +358,7 @@ impl<'a> Cx<'a> {
                     if (lt.is_int() && rt.is_int()) || (lt == rt && matches!(lt, T::Oz | T::Gl)) {
                         Ok((format!("{l} {op} {r}"), T::Prop))
                     } else {
-                        Err(format!("comparison at types {:?} / {:?}", lt, rt))
+                        crate::placement::cmp_ext(&l, &lt, op, &r, &rt)
                     }
                 };
                 match &b.op {
@@ -366,7 +387,7 @@ impl<'a> Cx<'a> {
                         let sig = self.fns.get(&(lt.key(), format!("{name}_{suffix}"))).cloned().ok_or(format!("no translated `impl {name}<{suffix}> for {}`", lt.key()))?;
                         Ok(self.call_sig(&sig, vec![l, r], pre))
                     }
-                    _ => Err(format!("unsupported operator in `{}`", quote::quote!(#b))),
+                    _ => self.binop_ext(b, l, lt, r, rt),
                 }
             }
             Expr::Call(c) => {
@@ -416,7 +437,7 @@ impl<'a> Cx<'a> {
                         return Ok((format!("({ctor} {a})"), t));
                     }
                 }
-                Err(format!("call of unknown function `{}`", p.join("::")))
+                self.call_ext(&p, &args, expect, pre)
             }
             Expr::MethodCall(m) => {
                 let name = m.method.to_string();
@@ -450,13 +471,13 @@ impl<'a> Cx<'a> {
                         let (a, _) = self.ex(args[0], Some(t), pre)?;
                         Ok((format!("({name} {recv} {a})"), t.clone()))
                     }
-                    _ => Err(format!("method `{name}` on {:?} is not translated", rt)),
+                    _ => self.method_ext(recv, rt, &name, &args, expect, pre),
                 }
             }
             Expr::Struct(s) => {
                 let n = segs(&s.path).last().unwrap().clone();
                 if n != "Line" || s.fields.len() != 2 {
-                    return Err(format!("struct literal `{n}`"));
+                    return self.ex_ext(e, expect, pre);
                 }
                 let mut start = None;
                 let mut end = None;
@@ -504,11 +525,11 @@ impl<'a> Cx<'a> {
                 s.push_str(&format!(" | {} => false)", vec!["_"; sc.len()].join(", ")));
                 Ok((s, T::Bool))
             }
-            _ => Err(format!("unsupported expression `{}`", quote::quote!(#e))),
+            _ => self.ex_ext(e, expect, pre),
         }
     }
 
-    fn scrutinee(&mut self, e: &Expr, pre: &mut Vec<Pre>) -> R<(Vec<String>, Vec<T>)> {
+    pub(crate) fn scrutinee(&mut self, e: &Expr, pre: &mut Vec<Pre>) -> R<(Vec<String>, Vec<T>)> {
         match e {
             Expr::Tuple(t) => {
                 let mut ls = vec![];
@@ -528,9 +549,11 @@ impl<'a> Cx<'a> {
         }
     }
 
-    fn pat(&mut self, p: &Pat, t: &T) -> R<Vec<String>> {
+    pub(crate) fn pat(&mut self, p: &Pat, t: &T) -> R<Vec<String>> {
         match p {
             Pat::Wild(_) => Ok(vec!["_".into()]),
+            // a capitalised identifier is a unit variant / constant (`None`, a glob-imported `Auto`), not a binder: extension
+            Pat::Ident(i) if i.ident.to_string().starts_with(|c: char| c.is_uppercase()) => self.pat_ext(p, t),
             Pat::Ident(i) => {
                 let n = i.ident.to_string();
                 self.locals.insert(n.clone(), (lname(&n), t.clone()));
@@ -538,10 +561,13 @@ impl<'a> Cx<'a> {
             }
             Pat::Path(pp) => match self.placement_variant(&segs(&pp.path), Some(t)) {
                 Some((l, _)) if l.ends_with("auto") => Ok(vec![format!(".{}", &l["Placement.".len()..])]),
-                _ => Err(format!("pattern `{}`", quote::quote!(#pp))),
+                _ => self.pat_ext(p, t),
             },
             Pat::TupleStruct(ts) => {
-                let (l, pt) = self.placement_variant(&segs(&ts.path), Some(t)).ok_or(format!("pattern `{}`", quote::quote!(#ts)))?;
+                let (l, pt) = match self.placement_variant(&segs(&ts.path), Some(t)) {
+                    Some(x) => x,
+                    None => return self.pat_ext(p, t),
+                };
                 if ts.elems.len() != 1 {
                     return Err("constructor pattern arity".into());
                 }
@@ -559,11 +585,11 @@ impl<'a> Cx<'a> {
                 }
                 Ok(v)
             }
-            _ => Err(format!("unsupported pattern `{}`", quote::quote!(#p))),
+            _ => self.pat_ext(p, t),
         }
     }
     /// alternatives, one pattern per scrutinee
-    fn arm_pats(&mut self, p: &Pat, tys: &[T]) -> R<Vec<Vec<String>>> {
+    pub(crate) fn arm_pats(&mut self, p: &Pat, tys: &[T]) -> R<Vec<Vec<String>>> {
         match p {
             Pat::Or(o) => {
                 let mut v = vec![];
@@ -858,6 +884,11 @@ const TARGETS: &[Target] = &[
 ];
 
 pub fn extract(repo: &str) -> Result<String, String> {
+    extract_with_fns(repo).map(|(t, _)| t)
+}
+
+/// the generated text and the registry of translated functions (used by extract/src/placement.rs)
+pub(crate) fn extract_with_fns(repo: &str) -> Result<(String, HashMap<(String, String), Sig>), String> {
     let env = CfgEnv::default_build();
     let mut files: HashMap<&str, syn::File> = HashMap::new();
     for f in [CO, TC, SG] {
@@ -917,7 +948,7 @@ pub fn extract(repo: &str) -> Result<String, String> {
         return Err(errors.join("\n"));
     }
     out.push_str("end Gen.Grid\n");
-    Ok(out)
+    Ok((out, fns))
 }
 
 fn translate(fns: &HashMap<(String, String), Sig>, tg: &Target, f: &syn::ImplItemFn) -> R<(String, Sig)> {
@@ -933,7 +964,7 @@ fn translate(fns: &HashMap<(String, String), Sig>, tg: &Target, f: &syn::ImplIte
         "Line<OriginZeroGridPlacement>" | "Line<GenericGridPlacement<T>>" => T::Line(Box::new(T::Placement(Box::new(T::Oz)))),
         o => return Err(format!("self type {o}")),
     };
-    let mut cx = Cx { fns, self_ty: Some(self_ty.clone()), generic_coord: if generic { Some(T::Oz) } else { None }, locals: HashMap::new(), aliases: HashMap::new(), n: 0 };
+    let mut cx = Cx { fns, self_ty: Some(self_ty.clone()), generic_coord: if generic { Some(T::Oz) } else { None }, locals: HashMap::new(), aliases: HashMap::new(), n: 0, ext: Default::default() };
     let mut binders = String::new();
     let mut params = vec![];
     let mut has_self = false;
